@@ -74,7 +74,7 @@ harnesses! {
         cover!(ratio < 0.9999999 && ratio > 0.99, "ratio just below one");
         forget(r);
     }
-    #[kani::unwind(30)]
+    #[kani::unwind(36)]
     fn c10_ffo_ctor_ratio(nd) {
         let ratio = nd.f64();
         nd.assume(ratio >= 0.5 && ratio <= 2.0);
